@@ -178,7 +178,7 @@ func (c *Ctx) Violate(sig, format string, a ...any) {
 	c.res.VioCount[sig]++
 	c.nvio++
 	kind := w
-	if i := strings.IndexAny(kind, "(:="); i > 0 {
+	if i := strings.IndexAny(kind, "(:=\""); i > 0 {
 		kind = kind[:i]
 	}
 	if len(kind) > 40 {
